@@ -857,6 +857,14 @@ def _b3_job(arg):
                 cls = 'missed-rebuild' if set(regen) < set(want) else 'spurious-rebuild'
                 return builds, ('B3|%s|%s' % ('/'.join(o[0] for o in hist[:i + 1]), cls),
                                 'history %r then build: regenerated %r, expected %r' % (hist[:i + 1], regen, want), i)
+            # the harness clock (+2 s per operation) can run ahead of the wall clock: a C file written "now" must not
+            # look older than sources that were touched "later" on the harness clock
+            names = [f for f in os.listdir(d) if f.endswith(SRC_EXT)]
+            top = max(os.stat(os.path.join(d, f)).st_mtime_ns for f in names)
+            for m in regen:
+                p = os.path.join(d, _cfile(m))
+                if os.stat(p).st_mtime_ns <= top:
+                    os.utime(p, ns=(top + 2 * 10**9, top + 2 * 10**9))
             if _real_state(d, bits):
                 return builds, ('B3|not-up-to-date-after-build', 'after %r + build the tree is still stale: %r'
                                 % (hist[:i + 1], _real_state(d, bits)), i)
